@@ -3,7 +3,7 @@
  1. specification mutants: deliberately wrong variants of the modules; TLC must report the named invariant/property violated
  2. corrupted traces: one field flipped / one event dropped / two events swapped; the trace specification must reject
 Exit 0 iff every mutant is killed and every corrupted trace is rejected."""
-import json, os, shutil, subprocess, sys
+import json, os, shutil, subprocess, sys, glob
 sys.path.insert(0, os.path.dirname(os.path.abspath(__file__)))
 import driver
 
@@ -112,6 +112,41 @@ def corrupt_variants(lines):
     return [(label, [json.dumps(e) + "\n" for e in ev]) for label, ev in out]
 
 
+def frames_variants(lines):
+    """corruptions of a scope-frame hook trace (Trace_Frames)"""
+    import copy
+    evs = [json.loads(l) for l in lines]
+    out = []
+    def first(pred, start=0):
+        for i in range(start, len(evs)):
+            if pred(i, evs[i]):
+                return i
+        return None
+    mid = len(evs) // 3
+    i = first(lambda i, e: e["e"] == "Ask" and not e["has"] and evs[i + 1]["e"] == "Ask", mid)
+    e2 = copy.deepcopy(evs); e2[i]["has"] = True; out.append(("delegating Ask %d claims has" % (i + 1), e2))
+    out.append(("drop delegated Ask %d (frame skipped)" % (i + 2), evs[:i + 1] + evs[i + 2:]))
+    i = first(lambda i, e: e["e"] == "Ask" and e["has"], mid)
+    e2 = copy.deepcopy(evs); e2[i]["has"] = False; out.append(("answering Ask %d claims miss" % (i + 1), e2))
+    i = first(lambda i, e: e["e"] == "SetGlobal" and e["stored"])
+    e2 = copy.deepcopy(evs); e2[i]["stored"] = False; out.append(("global frame %d does not store" % (i + 1), e2))
+    j = first(lambda k, e: e["e"] == "SetGlobal" and not e["stored"])
+    if j is not None:
+        e2 = copy.deepcopy(evs); e2[j]["stored"] = True; out.append(("non-global frame stores (event %d)" % (j + 1), e2))
+    i = first(lambda i, e: e["e"] == "New" and e["kind"] == "plain" and e["parent"] != 0 and evs[i - 1]["e"] != "New", mid)
+    if i is not None:
+        e2 = copy.deepcopy(evs); e2[i]["parent"] = e2[i]["parent"] - 1; out.append(("frame %d built on another parent" % (i + 1), e2))
+    i = first(lambda i, e: e["e"] == "New" and e["kind"] == "sandbox")
+    if i is not None:
+        e2 = copy.deepcopy(evs); e2[i]["kind"] = "plain"; out.append(("sandbox %d recorded as plain scope" % (i + 1), e2))
+    i = first(lambda i, e: e["e"] == "GetIndex" and e["answered"])
+    if i is not None:
+        e2 = copy.deepcopy(evs); e2[i]["has"] = not e2[i]["has"]; out.append(("counter read %d disagrees with stores" % (i + 1), e2))
+    i = first(lambda i, e: e["e"] == "Ask" and evs[i - 1]["e"] == "Ask" and not evs[i - 1]["has"], mid)
+    e2 = copy.deepcopy(evs); e2[i]["key"] = e2[i]["key"] + "x"; out.append(("delegated Ask %d asks another name" % (i + 1), e2))
+    return [(label, [json.dumps(e, separators=(",", ":")) + "\n" for e in ev]) for label, ev in out]
+
+
 def validate(module, cfg, path):
     res = driver.run_tlc("selftest_trace", module, cfg, sink=None, workers=1, timeout=600, deque=True, heap="3g",
                          env_extra={"TRACE": path})
@@ -135,6 +170,22 @@ def run_trace_corruptions():
     t3 = os.path.join(MUT, "soups.ndjson")
     subprocess.run([h, "trace", "soups", "--out", t3, "--seed", "1", "--cases", "20", "--lexlen", "0"], stdout=subprocess.DEVNULL)
     jobs.append(("Trace_Calls", "Trace_Calls.cfg", t3))
+    # scope-frame hook trace of real renders (for / include / render / assign / increment)
+    t4 = os.path.join(MUT, "frames")
+    for old in glob.glob(t4 + "*"):
+        os.remove(old)
+    recs = [{"p": "C04", "kind": "source", "expect": {"ok": True, "anyout": True}, "policies": ["eager"], "data": {"a": {"k": "str", "s": "d"}},
+             "parts": {"p": {"ok": True, "body": [{"t": "out", "x": {"e": "var", "idx": [], "name": "a"}}, {"t": "if", "cond": {"c": "truthy", "x": {"e": "var", "idx": [], "name": "b"}}, "then": [{"t": "text", "c": "+"}], "else": [{"t": "text", "c": "-"}]}, {"t": "assign", "var": "b", "x": {"e": "lit", "v": {"k": "int", "n": 1}}}]}},
+             "src": "{{a}}{% assign b = 2 %}{% for a in (1..2) %}{{a}}{{b}}{% assign a = 5 %}{% increment c %}{% include 'p' a: 3 %}{% endfor %}"
+                    "{% render 'p', a: 4 %}{{c}}{% increment a %}{{a}}{{b}}{% decrement c %}"}]
+    pr = subprocess.run([h, "replay", "--workers", "1", "--timeout-ms", "20000"], input="".join(json.dumps(r) + "\n" for r in recs),
+                        env=dict(os.environ, LIQUID_VERIF_TRACE=t4), text=True, stdout=subprocess.PIPE, stderr=subprocess.PIPE)
+    got = sorted(glob.glob(t4 + ".*"))
+    if "FAIL" in pr.stdout or not got:
+        print("TRACE  Trace_Frames   could not record a hook trace: %s" % pr.stdout[-400:])
+        return False
+    shutil.copy(got[0], t4 + ".ndjson")
+    jobs.append(("Trace_Frames", "Trace_Frames.cfg", t4 + ".ndjson"))
     for module, cfg, path in jobs:
         lines = open(path).readlines()[:4000]
         if not lines[-1].startswith('{"e":"End"'):
@@ -144,7 +195,7 @@ def run_trace_corruptions():
         rc = validate(module, cfg, good)
         print("TRACE  %-14s good trace (%d events): %s" % (module, len(lines), "accepted" if rc == 0 else "REJECTED (exit %d)" % rc))
         ok = ok and rc == 0
-        for label, var in corrupt_variants(lines):
+        for label, var in (frames_variants(lines) if module == "Trace_Frames" else corrupt_variants(lines)):
             bad = path + ".bad"
             open(bad, "w").writelines(var)
             rc = validate(module, cfg, bad)
